@@ -222,8 +222,11 @@ def awaitQueue (s : State) (i : Nat) (o : Obj) (me : Ptr) : State :=
 def awaitObj (s : State) (i : Nat) (o : Obj) (me : Ptr) : State :=
   if o.cf / 2 = 0 then s                         -- await_ready(): no suspension
   else if s.active then
-    -- symmetric transfer to the popped handle, then the scheduler runs the queue up to `me`
-    flushUntil (resumeAll (awaitQueue s i o me) [popValue s o]) me
+    -- symmetric transfer to the popped handle, then the scheduler runs the queue up to (the first entry of) `me`.
+    -- If the popped handle is `me` itself (own handle last: outside the contract) the transfer resumes `me` at once
+    -- and the scheduler does not run.
+    if popValue s o = me then resumeAll (awaitQueue s i o me) [popValue s o]
+    else flushUntil (resumeAll (awaitQueue s i o me) [popValue s o]) me
   else
     -- install_queue_and_call: await_suspend(h).resume(), then flush_queue() by the trailer
     { flushAll (resumeAll (awaitQueue { s with active := true } i o me) [popValue s o]) with active := false }
